@@ -1,7 +1,19 @@
 #!/bin/sh
 # seed_run.sh <seed dir name under /verif/seeded> <property id> [quick|thorough]
 # applies the seeded change to /repo, runs the property's check, restores /repo and the evidence file.
+# With a 4th argument "scratch" the patch is applied to a scratch worktree of /repo (under /tmp) and the check builds
+# from there into a scratch build directory; /repo itself, /verif/build and the evidence are not touched.
 S=/verif/seeded/$1; PID=$2; TIER=${3:-quick}
+if [ "$4" = scratch ]; then
+	WT=/tmp/seedwt.$$; BD=/tmp/seedbuild.$$
+	git -C /repo worktree add --detach $WT HEAD >/dev/null 2>&1 || exit 2
+	git -C $WT apply "$S/patch.diff" || { echo "patch does not apply"; git -C /repo worktree remove --force $WT; exit 2; }
+	cd /verif && VERIF_REPO=$WT VERIF_BUILD=$BD VERIF_EVIDENCE_DIR=$BD/evidence ./check $PID --tier $TIER > $BD.log 2>&1; RC=$?
+	grep -E "^VIOLATION|^  key=|^C[0-9]+ (quick|thorough):|HARNESS" $BD.log | head -12
+	echo "check exit=$RC (scratch)"
+	git -C /repo worktree remove --force $WT; rm -rf $BD $BD.log
+	exit $RC
+fi
 [ -s "$S/patch.diff" ] || { echo "no such seed $1"; exit 2; }
 [ -z "$(git -C /repo status --porcelain -- src)" ] || { echo "/repo/src is dirty"; exit 2; }
 cp /verif/evidence/$PID.json /tmp/evidence.$PID.$$.json 2>/dev/null
